@@ -1,4 +1,328 @@
-import Rngs.Model.Xoshiro
+/-
+  C10 — `clone()` and `==` are congruences.
+
+  (1) operation languages and `run` for the three families of deterministic generators:
+      the non-buffered ones (the 14 xoshiro-family types, SplitMix64, XorShiftRng; with
+      `jump` / `long_jump` where the type has them), `BlockRng` (Hc128Rng, IsaacRng) and
+      `BlockRng64` (Isaac64Rng);
+  (2) congruence where `==` is derived on the complete state (and for copies in general);
+  (3) Hc128Rng, whose hand-written `==` compares core and index but *not* the 16 buffered
+      words: congruence for all reachable states (needs: `generate` is injective on the core
+      and the buffer is determined by the core it leaves, `Rngs.Lib.Hc128Inj`);
+  (4) non-vacuity examples.
+  Generic lemmas: `Rngs.Lib.EqCongr`, `Rngs.Lib.Hc128Inj`, `Rngs.Lib.BlockRefine`.
+-/
+import Rngs.Lib.EqCongr
+import Rngs.Model.XorShift
 namespace Rngs.C10
-theorem placeholder : True := trivial
+open Rngs Rngs.BlockRefine Rngs.EqCongr
+
+/-! ## (1) operation languages -/
+
+/-- calls on a non-buffered generator -/
+inductive Op
+  | u32
+  | u64
+  | fill (n : Nat)
+  | jump
+  | longJump
+  deriving DecidableEq, Repr
+
+inductive Out
+  | w32 (x : U32)
+  | w64 (x : U64)
+  | bytes (b : List U8)
+  | unit
+  deriving DecidableEq, Repr
+
+/-- a non-buffered generator type: its `RngCore` methods and, if it has them, its jumps -/
+structure Gen (σ : Type) where
+  direct : Direct σ
+  jump : Option (σ → σ)
+  longJump : Option (σ → σ)
+
+def ofXo {σ : Type} (g : XoGen σ) : Gen σ := ⟨g.direct, g.jump, g.longJump⟩
+def xorShift : Gen XorShift.State := ⟨XorShift.direct, none, none⟩
+def splitMix : Gen U64 := ⟨SplitMix64.direct, none, none⟩
+
+/-- one call; `none` = the type has no such method -/
+def step {σ : Type} (g : Gen σ) (s : σ) : Op → Option (Out × σ)
+  | .u32 => some (.w32 (g.direct.nextU32 s).1, (g.direct.nextU32 s).2)
+  | .u64 => some (.w64 (g.direct.nextU64 s).1, (g.direct.nextU64 s).2)
+  | .fill n => some (.bytes (fillBytesViaNext g.direct n s).1, (fillBytesViaNext g.direct n s).2)
+  | .jump => g.jump.map (fun j => (.unit, j s))
+  | .longJump => g.longJump.map (fun j => (.unit, j s))
+
+/-- a history: all returned values and the final state -/
+def run {σ : Type} (g : Gen σ) : σ → List Op → Option (List Out × σ)
+  | s, [] => some ([], s)
+  | s, op :: ops =>
+    match step g s op with
+    | none => none
+    | some (o, s) =>
+      match run g s ops with
+      | none => none
+      | some (os, s) => some (o :: os, s)
+
+/-- `Clone` of every type here is a field-by-field copy -/
+def clone {α : Type} (a : α) : α := a
+
+/-- calls on the buffered generators: `Spec.Stream.Op` (`u32`, `u64`, `fill n`) interpreted by
+    `BlockRefine.opBlock32 c` (`BlockRng`) resp. `opBlock64 c` (`BlockRng64`), histories by
+    `Spec.Stream.run` -/
+abbrev BOp := Spec.Stream.Op
+abbrev brun32 {σ : Type} (c : BlockCore σ 32) := Spec.Stream.run (opBlock32 c)
+abbrev brun64 {σ : Type} (c : BlockCore σ 64) := Spec.Stream.run (opBlock64 c)
+
+/-! ## (2) congruence where `==` is derived on the complete state -/
+
+/-- equal generators: identical values under every operation sequence, identical final states -/
+theorem direct_congr {σ : Type} [DecidableEq σ] (g : Gen σ) (a b : σ) (h : (a == b) = true)
+    (ops : List Op) : run g a ops = run g b ops := by
+  rw [beq_iff_eq.mp h]
+
+/-- … and they are still equal afterwards -/
+theorem direct_eq_after {σ : Type} [DecidableEq σ] (g : Gen σ) (a b : σ) (h : (a == b) = true)
+    (ops : List Op) (oa ob : List Out) (a' b' : σ)
+    (ha : run g a ops = some (oa, a')) (hb : run g b ops = some (ob, b')) :
+    oa = ob ∧ (a' == b') = true := by
+  rw [beq_iff_eq.mp h, hb] at ha
+  cases ha
+  exact ⟨rfl, beq_self_eq_true _⟩
+
+/-- a clone compares equal and has the same future -/
+theorem direct_clone {σ : Type} [DecidableEq σ] (g : Gen σ) (a : σ) (ops : List Op) :
+    (clone a == a) = true ∧ run g (clone a) ops = run g a ops :=
+  ⟨beq_self_eq_true _, rfl⟩
+
+/-- the 14 xoshiro-family types -/
+theorem xoshiro_congr {σ : Type} [DecidableEq σ] (g : XoGen σ) (a b : σ) (h : (a == b) = true)
+    (ops : List Op) : run (ofXo g) a ops = run (ofXo g) b ops := direct_congr _ a b h ops
+
+theorem Xoroshiro64Star_congr (a b : S2 32) (h : (a == b) = true) (ops : List Op) :
+    run (ofXo Xoroshiro64Star.gen) a ops = run (ofXo Xoroshiro64Star.gen) b ops := direct_congr _ a b h ops
+theorem Xoroshiro64StarStar_congr (a b : S2 32) (h : (a == b) = true) (ops : List Op) :
+    run (ofXo Xoroshiro64StarStar.gen) a ops = run (ofXo Xoroshiro64StarStar.gen) b ops := direct_congr _ a b h ops
+theorem Xoroshiro128Plus_congr (a b : S2 64) (h : (a == b) = true) (ops : List Op) :
+    run (ofXo Xoroshiro128Plus.gen) a ops = run (ofXo Xoroshiro128Plus.gen) b ops := direct_congr _ a b h ops
+theorem Xoroshiro128PlusPlus_congr (a b : S2 64) (h : (a == b) = true) (ops : List Op) :
+    run (ofXo Xoroshiro128PlusPlus.gen) a ops = run (ofXo Xoroshiro128PlusPlus.gen) b ops := direct_congr _ a b h ops
+theorem Xoroshiro128StarStar_congr (a b : S2 64) (h : (a == b) = true) (ops : List Op) :
+    run (ofXo Xoroshiro128StarStar.gen) a ops = run (ofXo Xoroshiro128StarStar.gen) b ops := direct_congr _ a b h ops
+theorem Xoshiro128Plus_congr (a b : S4 32) (h : (a == b) = true) (ops : List Op) :
+    run (ofXo Xoshiro128Plus.gen) a ops = run (ofXo Xoshiro128Plus.gen) b ops := direct_congr _ a b h ops
+theorem Xoshiro128PlusPlus_congr (a b : S4 32) (h : (a == b) = true) (ops : List Op) :
+    run (ofXo Xoshiro128PlusPlus.gen) a ops = run (ofXo Xoshiro128PlusPlus.gen) b ops := direct_congr _ a b h ops
+theorem Xoshiro128StarStar_congr (a b : S4 32) (h : (a == b) = true) (ops : List Op) :
+    run (ofXo Xoshiro128StarStar.gen) a ops = run (ofXo Xoshiro128StarStar.gen) b ops := direct_congr _ a b h ops
+theorem Xoshiro256Plus_congr (a b : S4 64) (h : (a == b) = true) (ops : List Op) :
+    run (ofXo Xoshiro256Plus.gen) a ops = run (ofXo Xoshiro256Plus.gen) b ops := direct_congr _ a b h ops
+theorem Xoshiro256PlusPlus_congr (a b : S4 64) (h : (a == b) = true) (ops : List Op) :
+    run (ofXo Xoshiro256PlusPlus.gen) a ops = run (ofXo Xoshiro256PlusPlus.gen) b ops := direct_congr _ a b h ops
+theorem Xoshiro256StarStar_congr (a b : S4 64) (h : (a == b) = true) (ops : List Op) :
+    run (ofXo Xoshiro256StarStar.gen) a ops = run (ofXo Xoshiro256StarStar.gen) b ops := direct_congr _ a b h ops
+theorem Xoshiro512Plus_congr (a b : S8) (h : (a == b) = true) (ops : List Op) :
+    run (ofXo Xoshiro512Plus.gen) a ops = run (ofXo Xoshiro512Plus.gen) b ops := direct_congr _ a b h ops
+theorem Xoshiro512PlusPlus_congr (a b : S8) (h : (a == b) = true) (ops : List Op) :
+    run (ofXo Xoshiro512PlusPlus.gen) a ops = run (ofXo Xoshiro512PlusPlus.gen) b ops := direct_congr _ a b h ops
+theorem Xoshiro512StarStar_congr (a b : S8) (h : (a == b) = true) (ops : List Op) :
+    run (ofXo Xoshiro512StarStar.gen) a ops = run (ofXo Xoshiro512StarStar.gen) b ops := direct_congr _ a b h ops
+theorem SplitMix64_congr (a b : U64) (h : (a == b) = true) (ops : List Op) :
+    run splitMix a ops = run splitMix b ops := direct_congr _ a b h ops
+theorem XorShift_congr (a b : XorShift.State) (h : (a == b) = true) (ops : List Op) :
+    run xorShift a ops = run xorShift b ops := direct_congr _ a b h ops
+
+/-- the op language really reaches the model's methods, jumps included -/
+theorem step_xo {σ : Type} (g : XoGen σ) (s : σ) (n : Nat) (j l : σ → σ)
+    (hj : g.jump = some j) (hl : g.longJump = some l) :
+    step (ofXo g) s .u32 = some (.w32 (g.nextU32 s).1, (g.nextU32 s).2)
+    ∧ step (ofXo g) s .u64 = some (.w64 (g.nextU64 s).1, (g.nextU64 s).2)
+    ∧ step (ofXo g) s (.fill n) = some (.bytes (g.fill n s).1, (g.fill n s).2)
+    ∧ step (ofXo g) s .jump = some (.unit, j s)
+    ∧ step (ofXo g) s .longJump = some (.unit, l s) := by
+  refine ⟨rfl, rfl, rfl, ?_, ?_⟩
+  · simp [step, ofXo, hj]
+  · simp [step, ofXo, hl]
+
+/-! ### the buffered wrappers without `==` (IsaacRng, Isaac64Rng) and copies in general -/
+
+/-- a copy of any `BlockRng` has the same future -/
+theorem block32_copy_congr {σ : Type} (c : BlockCore σ 32) (a b : BlockRng σ) (h : a = b)
+    (ops : List BOp) : brun32 c a ops = brun32 c b ops := by rw [h]
+
+theorem block64_copy_congr {σ : Type} (c : BlockCore σ 64) (a b : BlockRng64 σ) (h : a = b)
+    (ops : List BOp) : brun64 c a ops = brun64 c b ops := by rw [h]
+
+theorem block_clone {σ : Type} (c32 : BlockCore σ 32) (c64 : BlockCore σ 64) (a : BlockRng σ)
+    (a' : BlockRng64 σ) (ops : List BOp) :
+    brun32 c32 (clone a) ops = brun32 c32 a ops ∧ brun64 c64 (clone a') ops = brun64 c64 a' ops :=
+  ⟨rfl, rfl⟩
+
+/-- `IsaacCore == IsaacCore` (mem, a, b, c) is equality of the complete core, both widths -/
+theorem Isaac_core_beq_iff {w : Nat} (x y : Isaac.Core w) : Isaac.Core.beq x y = true ↔ x = y :=
+  isaac_core_beq_iff x y
+
+/-- equal cores generate the same block and stay equal -/
+theorem Isaac_core_beq_congr {w : Nat} (p : Isaac.Params w) (x y : Isaac.Core w)
+    (h : Isaac.Core.beq x y = true) (res : Array (BitVec w)) :
+    (Isaac.generate p x res).1 = (Isaac.generate p y res).1
+    ∧ Isaac.Core.beq (Isaac.generate p x res).2 (Isaac.generate p y res).2 = true := by
+  rw [(isaac_core_beq_iff x y).mp h]
+  exact ⟨rfl, (isaac_core_beq_iff _ _).mpr rfl⟩
+
+/-- generators built over equal cores have the same future -/
+theorem Isaac_core_beq_future (x y : Isaac.Core 32) (h : Isaac.Core.beq x y = true) (ops : List BOp) :
+    brun32 Isaac.blockCore32 (BlockRng.new Isaac.blockCore32 x) ops
+      = brun32 Isaac.blockCore32 (BlockRng.new Isaac.blockCore32 y) ops := by
+  rw [(isaac_core_beq_iff x y).mp h]
+
+theorem Isaac64_core_beq_future (x y : Isaac.Core 64) (h : Isaac.Core.beq x y = true) (ops : List BOp) :
+    brun64 Isaac.blockCore64 (BlockRng64.new Isaac.blockCore64 x) ops
+      = brun64 Isaac.blockCore64 (BlockRng64.new Isaac.blockCore64 y) ops := by
+  rw [(isaac_core_beq_iff x y).mp h]
+
+/-! ## (3) Hc128Rng: `==` is core and index, not the buffer -/
+
+/-- the states a program can hold: built by `from_seed` (hence also `seed_from_u64`,
+    `from_rng`, which go through it), then any calls -/
+inductive Reachable : Hc128.Rng → Prop
+  | fromSeed (seed : List U8) : Reachable (Hc128.fromSeed seed)
+  | op (a : Hc128.Rng) (op : BOp) : Reachable a → Reachable (opBlock32 Hc128.blockCore a op).2
+
+/-- `opBlock32 Hc128.blockCore` is the model's `Hc128Rng` methods -/
+theorem opBlock32_hc128 (st : Hc128.Rng) (n : Nat) :
+    opBlock32 Hc128.blockCore st .u32 = (.w32 (Hc128.nextU32 st).1, (Hc128.nextU32 st).2)
+    ∧ opBlock32 Hc128.blockCore st .u64 = (.w64 (Hc128.nextU64 st).1, (Hc128.nextU64 st).2)
+    ∧ opBlock32 Hc128.blockCore st (.fill n) = (.bytes (Hc128.fill n st).1, (Hc128.fill n st).2) :=
+  ⟨rfl, rfl, rfl⟩
+
+theorem Reachable.nextU32 {a : Hc128.Rng} (h : Reachable a) : Reachable (Hc128.nextU32 a).2 := by
+  have := Reachable.op a .u32 h
+  rwa [(opBlock32_hc128 a 0).1] at this
+
+/-- what `==` compares -/
+theorem Hc128_beq_iff (a b : Hc128.Rng) :
+    Hc128.beq a b = true ↔ a.core = b.core ∧ a.index = b.index := beq_iff a b
+
+/-- Reachable states: 16-word buffer, index ≤ 16, well-formed core, and if part of the buffer
+    is unread it is exactly what the `generate` call that produced the current core wrote. -/
+theorem Hc128_reachable_inv (a : Hc128.Rng) (h : Reachable a) :
+    a.results.size = 16 ∧ a.index ≤ 16 ∧ Hc128Inj.WF a.core
+    ∧ (a.index < 16 → ∃ c₀ r₀, Hc128Inj.WF c₀ ∧ r₀.size = 16
+        ∧ Hc128.generate c₀ r₀ = (a.results, a.core)) := by
+  have : Inv a := by
+    induction h with
+    | fromSeed seed => exact fromSeed_Inv seed
+    | op a op _ ih => exact ih.op op
+  exact ⟨this.2.1, this.2.2.1, this.1, this.2.2.2⟩
+
+theorem reachable_Inv {a : Hc128.Rng} (h : Reachable a) : Inv a := by
+  induction h with
+  | fromSeed seed => exact fromSeed_Inv seed
+  | op a op _ ih => exact ih.op op
+
+/-- reachability is closed under whole histories -/
+theorem Hc128_reachable_run (a : Hc128.Rng) (h : Reachable a) (ops : List BOp) :
+    Reachable (brun32 Hc128.blockCore a ops).2 := by
+  induction ops generalizing a with
+  | nil => exact h
+  | cons op ops ih =>
+    show Reachable (Spec.Stream.run _ a (op :: ops)).2
+    rw [StreamRefine.run_cons]
+    exact ih _ (.op _ _ h)
+
+/-- `generate` is injective on well-formed cores, and the 16 result words are determined by
+    the core it leaves behind (this is why `==` need not look at the buffer) -/
+theorem Hc128_generate_inj (c₁ c₂ : Hc128.Core) (h₁ : Hc128Inj.WF c₁) (h₂ : Hc128Inj.WF c₂)
+    (r₁ r₂ : Array U32) (hr₁ : r₁.size = 16) (hr₂ : r₂.size = 16)
+    (h : (Hc128.generate c₁ r₁).2 = (Hc128.generate c₂ r₂).2) :
+    c₁ = c₂ ∧ (Hc128.generate c₁ r₁).1 = (Hc128.generate c₂ r₂).1 :=
+  ⟨Hc128Inj.generate_core_inj h₁ h₂ r₁ r₂ h,
+   Hc128Inj.generate_results_determined h₁ h₂ r₁ r₂ hr₁ hr₂ h⟩
+
+/-- **Whenever two reachable `Hc128Rng` compare equal, every operation sequence applied to both
+    returns identical values and leaves them equal.** -/
+theorem Hc128_beq_congr (a b : Hc128.Rng) (ha : Reachable a) (hb : Reachable b)
+    (h : Hc128.beq a b = true) (ops : List BOp) :
+    (brun32 Hc128.blockCore a ops).1 = (brun32 Hc128.blockCore b ops).1
+    ∧ Hc128.beq (brun32 Hc128.blockCore a ops).2 (brun32 Hc128.blockCore b ops).2 = true := by
+  have he := bequiv_of_beq (reachable_Inv ha) (reachable_Inv hb) h
+  obtain ⟨h1, h2⟩ := run_congr hc128_sizeOK (by decide) hc128_hind ops a b he
+  exact ⟨h1, beq_of_bequiv h2⟩
+
+/-- the same under the weaker, explicit hypothesis instead of reachability: the buffers agree
+    unless exhausted (no injectivity needed) -/
+theorem Hc128_beq_congr_of_buffers (a b : Hc128.Rng) (hsa : a.results.size = 16)
+    (hsb : b.results.size = 16) (hle : a.index ≤ 16) (hbuf : a.index < 16 → a.results = b.results)
+    (h : Hc128.beq a b = true) (ops : List BOp) :
+    (brun32 Hc128.blockCore a ops).1 = (brun32 Hc128.blockCore b ops).1
+    ∧ Hc128.beq (brun32 Hc128.blockCore a ops).2 (brun32 Hc128.blockCore b ops).2 = true := by
+  obtain ⟨hc, hi⟩ := (beq_iff a b).mp h
+  obtain ⟨h1, h2⟩ := run_congr hc128_sizeOK (by decide) hc128_hind ops a b
+    ⟨hc, hi, hle, hsa, hsb, hbuf⟩
+  exact ⟨h1, beq_of_bequiv h2⟩
+
+/-- **Two `Hc128Rng` at different read positions are not equal** (in particular at different
+    positions of the same block). -/
+theorem Hc128_index_distinguishes (a b : Hc128.Rng) (h : a.index ≠ b.index) :
+    Hc128.beq a b = false := by
+  cases hb : Hc128.beq a b with
+  | false => rfl
+  | true => exact absurd ((beq_iff a b).mp hb).2 h
+
+/-- **A clone compares equal to the original** and has the same future. -/
+theorem Hc128_clone (a : Hc128.Rng) (ops : List BOp) :
+    Hc128.beq (clone a) a = true
+    ∧ brun32 Hc128.blockCore (clone a) ops = brun32 Hc128.blockCore a ops := by
+  unfold clone
+  constructor
+  · rw [beq_iff]; exact ⟨rfl, rfl⟩
+  · exact block32_copy_congr _ _ _ (Eq.refl a) ops
+
+/-- reading one word moves the index, so a generator and its clone advanced by one `next_u32`
+    inside a block are unequal -/
+theorem Hc128_advanced_ne (a : Hc128.Rng) (hi : a.index < 16) :
+    Hc128.beq a (Hc128.nextU32 a).2 = false := by
+  apply Hc128_index_distinguishes
+  have : ¬ a.index ≥ Hc128.blockCore.len := by show ¬ a.index ≥ 16; omega
+  simp only [Hc128.nextU32, BlockRng.nextU32, this, if_false]
+  omega
+
+/-! ## (4) non-vacuity -/
+
+/-- reachable states at two different positions of the same block: after the first
+    `next_u32` (refill, index 1) and after one more (index 2) — both reachable, unequal -/
+example (seed : List U8) :
+    let a := (Hc128.nextU32 (Hc128.fromSeed seed)).2
+    Reachable a ∧ Reachable (Hc128.nextU32 a).2 ∧ Hc128.beq a (Hc128.nextU32 a).2 = false := by
+  intro a
+  have ra : Reachable a := (Reachable.fromSeed seed).nextU32
+  have hi : a.index = 1 := by
+    simp [a, Hc128.nextU32, BlockRng.nextU32, Hc128.fromSeed, BlockRng.new,
+      BlockRng.generateAndSet, Hc128.blockCore]
+  exact ⟨ra, ra.nextU32, Hc128_advanced_ne a (by omega)⟩
+
+/-- two states at different positions of one block (same core, same buffer) compare unequal -/
+example :
+    let core : Hc128.Core := ⟨Array.replicate 1024 7, 32⟩
+    let buf : Array U32 := Array.replicate 16 9
+    Hc128.beq ⟨buf, 3, core⟩ ⟨buf, 5, core⟩ = false :=
+  Hc128_index_distinguishes _ _ (by decide)
+
+/-- … and the same state compares equal to itself -/
+example (a : Hc128.Rng) : Hc128.beq a a = true := (Hc128_clone a []).1
+
+/-- reachability is needed: `==` ignores the buffer, so two *unreachable* states that differ
+    only in unread buffered words compare equal and answer differently -/
+example :
+    let core : Hc128.Core := ⟨#[], 0⟩
+    let a : Hc128.Rng := ⟨Array.replicate 16 1, 0, core⟩
+    let b : Hc128.Rng := ⟨Array.replicate 16 2, 0, core⟩
+    Hc128.beq a b = true ∧ (Hc128.nextU32 a).1 ≠ (Hc128.nextU32 b).1 := by decide
+
+/-- the jump operations are part of the language where the type has them -/
+example : (run (ofXo Xoshiro256PlusPlus.gen) ⟨1, 2, 3, 4⟩ [.u32]).isSome = true := rfl
+example (s : S4 64) : (step (ofXo Xoshiro256PlusPlus.gen) s .jump).isSome = true := rfl
+example (s : S2 32) : step (ofXo Xoroshiro64Star.gen) s .jump = none := rfl
+
 end Rngs.C10
